@@ -65,7 +65,7 @@ func checkResume(in HistInput) string {
 	if stop != nil {
 		return "generator error: " + stop.Why
 	}
-	base := Run(h, Opts{Start: start, ServerID: 9, LockStep: in.LockStep})
+	base := Run(h, Opts{Start: start, ServerID: 9, LockStep: in.LockStep, KeepTx: true})
 	if base.Hung {
 		return "HUNG"
 	}
@@ -78,6 +78,11 @@ func checkResume(in HistInput) string {
 	got := base.Snaps()
 	if d := hx.CompareAll(exp, got); d != "" {
 		return d
+	}
+	for i, d := range base.Deliveries {
+		if diff := d.Snap.Diff(hx.Snapshot(d.Tx)); diff != "" {
+			return fmt.Sprintf("delivery %d changed after it was delivered (re-read after the stream ended): %s", i, diff)
+		}
 	}
 	// (i) chain, stated on the delivered labels alone
 	prevFile, prevPos := start.File, int64(start.Pos)
